@@ -363,11 +363,22 @@ class QubitCircuit:
                 else:
                     ctrl = None
 
+                # The classical condition (and the value of the quantum
+                # controls) of the gate belongs to the block as well: a gate
+                # conditioned on classical bits must not become unconditional.
+                if circuit_op.classical_controls is not None:
+                    classical_controls = list(circuit_op.classical_controls)
+                else:
+                    classical_controls = None
                 self.add_gate(
                     circuit_op.name,
                     targets=tar,
                     controls=ctrl,
                     arg_value=circuit_op.arg_value,
+                    arg_label=circuit_op.arg_label,
+                    classical_controls=classical_controls,
+                    control_value=circuit_op.control_value,
+                    classical_control_value=circuit_op.classical_control_value,
                 )
             elif isinstance(circuit_op, Measurement):
                 self.add_measurement(
